@@ -812,14 +812,42 @@ def _mod_functools(interp, m):
 
     m.ns["update_wrapper"] = BuiltinV("functools.update_wrapper", update_wrapper)
 
-    def identity_deco(i, a, k, n):
-        # lru_cache / cache / wraps: transparent for the analysis (a cache of a pure function is the function)
-        if len(a) == 1 and not k and isinstance(a[0], (FuncV, BoundMethod)):
-            return a[0]
-        return BuiltinV("functools.<decorator>", lambda i2, a2, k2, n2: a2[0])
+    def memo_key(v):
+        # only arguments whose identity is concrete take part in the memo table
+        if v is None or isinstance(v, (bool, int, str, ClassV, FuncV)):
+            return ("k", type(v).__name__, v if isinstance(v, (bool, int, str)) or v is None else id(v))
+        if isinstance(v, tuple):
+            return ("t",) + tuple(memo_key(x) for x in v)
+        raise KeyError
 
-    m.ns["lru_cache"] = BuiltinV("functools.lru_cache", identity_deco)
-    m.ns["cache"] = BuiltinV("functools.cache", identity_deco)
+    def memoised(f):
+        # lru_cache / cache: the object returned for equal concrete arguments is the SAME object (that sharing is
+        # what matters to the analyses); with a symbolic argument the call goes straight through.
+        table = {}
+
+        def call(i, a, k, n):
+            try:
+                key = (tuple(memo_key(x) for x in a), tuple(sorted((kk, memo_key(vv)) for kk, vv in k.items())))
+            except KeyError:
+                return i.call(f, list(a), dict(k), n)
+            ent = table.get(key)
+            if ent is not None and ent[0] is i:
+                return ent[1]
+            r = i.call(f, list(a), dict(k), n)
+            table[key] = (i, r)
+            return r
+
+        b = BuiltinV(f"functools.<cached {getattr(f, 'qualname', f)}>", call)
+        b.wrapped = f
+        return b
+
+    def cache_deco(i, a, k, n):
+        if len(a) == 1 and not k and isinstance(a[0], (FuncV, BoundMethod)):
+            return memoised(a[0])
+        return BuiltinV("functools.<decorator>", lambda i2, a2, k2, n2: memoised(a2[0]))
+
+    m.ns["lru_cache"] = BuiltinV("functools.lru_cache", cache_deco)
+    m.ns["cache"] = BuiltinV("functools.cache", cache_deco)
     m.ns["wraps"] = BuiltinV("functools.wraps", lambda i, a, k, n: BuiltinV("functools.<wraps>", lambda i2, a2, k2, n2: a2[0]))
     _ext_default_getter(m, "functools")
 
